@@ -56,8 +56,9 @@ CLAIMS = {
             "relations and modifiers untouched; NoQuantity exactly when there is no quantity): a locked value is returned verbatim with outcome Fixed for every factor; a "
             "scalable number/range is replaced end-wise by the f64 product of its value and the factor (the product is an "
             "uninterpreted float relation: the contract pins which operands are multiplied, not the rounded result), outcome Scaled; "
-            "text is unchanged with outcome Error; default scaling returns the written value; the unit is kept. Recipe-level "
-            "iteration, fitting, servings are not decided.", VERUS),
+            "text is unchanged with outcome Error; default scaling returns the written value; the unit is kept; scale_to_servings "
+            "scales by one f64 division of the target and the first declared servings (over an assumed `scale`); Kani (bounded): "
+            "the declared servings are kept in order. Recipe-level iteration and fitting are not decided.", VERUS),
     "C10": ("proof", "Partial (value level). Contracts on the real Value::try_add and GroupedValue::{add,merge,..}: text never takes "
             "part in a sum and is kept verbatim in insertion order; numbers and ranges are folded end-wise into the single numeric "
             "slot (sum as an uninterpreted f64 relation over the right operands); the `expect` in add cannot fire; the "
@@ -72,7 +73,10 @@ CLAIMS = {
             "one the real FractionLookupTable::new() returns when executed natively in the same run. Printed form not decided.", KANI),
     "C13": ("model_checking", "Partial, bounded. parse_common_time_format on all strings of at most 10 bytes over {0-9,h,m,+,x} "
             "(quick) / all ASCII (thorough): no overflow, no panic; thorough adds the value law (documented HhMm forms give exactly "
-            "60h+m, too-large values are refused). Other accessors (units, servings, tags, author, locale) not decided.", KANI + " (bounded stand-in, labelled bounded)"),
+            "60h+m, too-large values are refused); hard_coded_time_units accepts exactly the documented spellings (8 bytes); "
+            "RecipeTime::total never wraps (complete; defect D10 found and fixed); servings lists of three numbers are accepted "
+            "exactly when distinct and in range, and returned in order (bounded). Other accessors (tags, author, locale, "
+            "number-unit strings) not decided.", KANI + " (bounded stand-in, labelled bounded)"),
     "C17": ("proof", "Partial. The local mechanisms: is_empty_token is exactly {whitespace, comments, newline}; ws_comments skips only "
             "such tokens; comments never enter text fragments (fragments are faithful slices outside comment tokens); a block "
             "comment ends at the first `-]`; the block splitter drops only blank tokens, trims trailing newlines, and a line "
